@@ -9,6 +9,8 @@ histogram.  Oracle: explicit interval tests lo < z <= hi / lo <= z < hi.
 
 from __future__ import annotations
 
+import contextlib
+
 import math
 
 import numpy as np
@@ -47,16 +49,22 @@ def case_strategy(draw):
     ra = draw(st.lists(gen.floats(0.1, 0.2), min_size=n, max_size=n))
     dec = draw(st.lists(gen.floats(-0.1, 0.1), min_size=n, max_size=n))
     w = draw(st.one_of(st.none(), st.lists(st.one_of(gen.floats(0.1, 5.0), st.sampled_from([1.0, 2.0, 0.5])), min_size=n, max_size=n)))
-    return {"binning": b, "cosmology": cosmology, "cat": {"ra": ra, "dec": dec, "w": w, "z": z}, "pid": pid, "npatch": K}
+    return {"binning": b, "cosmology": cosmology, "cat": {"ra": ra, "dec": dec, "w": w, "z": z}, "pid": pid, "npatch": K, "workers": draw(st.sampled_from([1, 1, 2, 3])), "tape": draw(st.lists(st.integers(0, 5), max_size=8))}
 
 
 def run_case(case):
     """the three consumers are checked with the configured closed side and then, on the same
     cache directory, with the other one (the rule must not stick to what was cached first)"""
-    first = _run_one(case, flipped=False)
-    if any(r.status == "fail" for r in first) or first[0].status == "discard":
-        return first
-    second = _run_one(case, flipped=True, after_first=True)
+    # with more than one worker the tasks (and the binning they carry) cross a pickle boundary
+    # and finish in a tape-chosen order
+    from vlib import schedpool
+
+    ctx = schedpool.Patched(case.get("tape", [])) if case.get("workers", 1) > 1 else contextlib.nullcontext()
+    with ctx:
+        first = _run_one(case, flipped=False)
+        if any(r.status == "fail" for r in first) or first[0].status == "discard":
+            return first
+        second = _run_one(case, flipped=True, after_first=True)
     fails = [r for r in second if r.status == "fail"]
     for r in fails:
         r.sig = "second-closed-side:" + r.sig
@@ -68,6 +76,7 @@ def _run_one(case, flipped, after_first=False):
     from yaw.catalog.trees import BinnedTrees
     from yaw.redshifts import HistData
 
+    mw = int(case.get("workers", 1))
     b = dict(case["binning"])
     if flipped:
         b["closed"] = "left" if b["closed"] == "right" else "right"
@@ -77,7 +86,7 @@ def _run_one(case, flipped, after_first=False):
     z = np.array(cat["z"], float)
     w = np.ones(len(z)) if cat["w"] is None else np.array(cat["w"], float)
     pid = np.array(case["pid"])
-    ck = Checker(classes=[f"closed:{b['closed']}", f"method:{b['method']}", "weighted" if cat["w"] is not None else "unweighted"])
+    ck = Checker(classes=[f"closed:{b['closed']}", f"method:{b['method']}", "weighted" if cat["w"] is not None else "unweighted", f"workers:{mw}"])
     with Scratch() as tmp:
         try:
             cfg = pl.make_config(cfgd)
@@ -98,8 +107,8 @@ def _run_one(case, flipped, after_first=False):
             if after_first:
                 # history: the same cache was used with the other closed side just before
                 other = "left" if closed == "right" else "right"
-                catalog.build_trees(edges, closed=other, max_workers=1)
-                yaw.autocorrelate(pl.make_config(dict(cfgd, closed=other)), catalog, catalog, count_rr=False, max_workers=1)
+                catalog.build_trees(edges, closed=other, max_workers=mw)
+                yaw.autocorrelate(pl.make_config(dict(cfgd, closed=other)), catalog, catalog, count_rr=False, max_workers=mw)
         except Exception as e:  # noqa
             ck.fail(f"setup|{exc_sig(e)}", f"{type(e).__name__}: {e}")
             return ck.results()
@@ -125,7 +134,7 @@ def _run_one(case, flipped, after_first=False):
 
         # ---- 1. tree building
         try:
-            catalog.build_trees(edges, closed=closed, max_workers=1)
+            catalog.build_trees(edges, closed=closed, max_workers=mw)
             got_n = np.zeros((nb, K))
             got_w = np.zeros((nb, K))
             for p, patch in catalog.items():
@@ -145,7 +154,7 @@ def _run_one(case, flipped, after_first=False):
 
         # ---- 2. weight sums of a measurement
         try:
-            cf = yaw.autocorrelate(cfg, catalog, catalog, count_rr=False, max_workers=1)[0]
+            cf = yaw.autocorrelate(cfg, catalog, catalog, count_rr=False, max_workers=mw)[0]
             sw = np.asarray(cf.dd.sum_weights.sum_weights1, float)
             ck.expect(sw.shape == exp_w.shape and np.allclose(sw, exp_w, rtol=1e-12, atol=0), f"measurement:sum_weights:closed-{closed}", lambda: f"{sw.tolist()} vs {exp_w.tolist()}")
             sw2 = np.asarray(cf.dr.sum_weights.sum_weights2, float)
@@ -155,7 +164,7 @@ def _run_one(case, flipped, after_first=False):
 
         # ---- 3. histogram
         try:
-            hist = HistData.from_catalog(catalog, cfg, max_workers=1)
+            hist = HistData.from_catalog(catalog, cfg, max_workers=mw)
             data = np.asarray(hist.data, float)
             if data.shape != (nb,) or not np.allclose(data, exp_w.sum(axis=1), rtol=1e-12, atol=0):
                 ck.fail(f"histogram:membership:closed-{closed}", f"{data.tolist()} vs {exp_w.sum(axis=1).tolist()}; edges={edges.tolist()}")
